@@ -53,6 +53,9 @@ pub struct ScriptedRng {
     pending_g1: Option<Scalar>,
     book: Book,
     pub desync: Option<String>,
+    /// an entropy source whose fallible interface reports an error (and leaves the buffer untouched) while the
+    /// infallible one keeps working - a legal `RngCore`; the library must not come to depend on `try_fill_bytes`
+    pub fail_try: bool,
 }
 
 impl ScriptedRng {
@@ -66,6 +69,7 @@ impl ScriptedRng {
             pending_g1: None,
             book,
             desync: None,
+            fail_try: false,
         }
     }
 
@@ -80,6 +84,7 @@ impl ScriptedRng {
             pending_g1: self.pending_g1,
             book: self.book.clone(),
             desync: None,
+            fail_try: self.fail_try,
         }
     }
 
@@ -266,6 +271,9 @@ impl RngCore for ScriptedRng {
         }
     }
     fn try_fill_bytes(&mut self, dest: &mut [u8]) -> Result<(), rand::Error> {
+        if self.fail_try {
+            return Err(rand::Error::new("entropy source reports an error"));
+        }
         self.fill_bytes(dest);
         Ok(())
     }
